@@ -507,5 +507,33 @@ Theorem len_bounds s : SAll s -> ss_cnt s <= length (ss_texts s) <= S (ss_cnt s)
 Proof. intros [_ _ C]. pose proof (c_cnt _ C) as Cc. destruct (owner_pc s) as [[]|]; lia. Qed.
 
 Theorem flush_resets s : let s' := sflush s in
-  ss_index s' = [] /\ ss_files s' = [] /\ ss_cnt s' = 0 /\ ss_wf s' = 0 /\ ss_texts s' = [] /\ (forall g, ~ stored (ss_index s') g).
-Proof. simpl. repeat split; auto. intros g (e & He). unfold idx_get in He. destruct g; discriminate. Qed.
+  ss_index s' = [] /\ Forall (fun f => f = []) (ss_files s') /\ length (ss_files s') = length (ss_files s)
+  /\ ss_cnt s' = 0 /\ ss_wf s' = 0 /\ ss_texts s' = [] /\ (forall g, ~ stored (ss_index s') g).
+Proof.
+  simpl. repeat split; auto.
+  - apply Forall_forall. intros f Hf. apply in_map_iff in Hf. destruct Hf as (x & <- & _). reflexivity.
+  - apply map_length.
+  - intros g (e & He). unfold idx_get in He. destruct g; discriminate.
+Qed.
+
+(* after a flush between operations the storage is in a state that satisfies every invariant again - with the writer
+   numbers of the processes still valid - so everything proved above holds for the operations that follow *)
+Theorem flush_epoch s : SAll s -> (forall p pr, nth_error (ss_procs s) p = Some pr -> p_pc pr = PIdle) -> SAll (sflush s).
+Proof.
+  intros [A B C] Idle.
+  assert (Np : forall p pr', nth_error (map (fun pr => mkP (p_wid pr) (p_todo pr) PIdle []) (ss_procs s)) p = Some pr' ->
+            exists pr, nth_error (ss_procs s) p = Some pr /\ pr' = mkP (p_wid pr) (p_todo pr) PIdle []).
+  { intros p pr' H. rewrite nth_error_map in H. destruct (nth_error (ss_procs s) p) as [pr|]; [|discriminate]. injection H as <-. eauto. }
+  constructor; constructor; unfold sflush; simpl; try (intros; discriminate); auto.
+  - intros p pr' H. destruct (Np p pr' H) as (pr & _ & ->). simpl. split; discriminate.
+  - intros p pr' H. destruct (Np p pr' H) as (pr & N & ->). simpl. destruct (a_prog _ A p pr N) as (Fo & _ & Hw).
+    repeat split; auto. rewrite map_length. destruct (p_wid pr); auto.
+  - constructor.
+  - intros g. split; [intros (e & He); unfold idx_get in He; destruct g; discriminate | intros []].
+  - intros g t [].
+  - intros p pr' g t H. destruct (Np p pr' H) as (pr & _ & ->). discriminate.
+  - intros p pr' g w off H. destruct (Np p pr' H) as (pr & _ & ->). discriminate.
+  - intros p pr' o r H. destruct (Np p pr' H) as (pr & _ & ->). intros [].
+  - intros i Hi. lia.
+  - intros (e & He). unfold idx_get in He. discriminate.
+Qed.
